@@ -36,7 +36,12 @@ pub enum LoginFail { Panic(&'static str), ServerRefused, ClientRefused, BadOwnKe
 /// export + re-import, into_proof (32), client (32), into_server (16).  `cu`, `cp` are what the
 /// client types (case variants).
 pub fn login(u: &str, p: &str, cu: &str, cp: &str, tape: &[u8]) -> Result<Login, LoginFail> {
-    vr::install_tape(tape);
+    // the bytes the pinned implementation draws, followed by filler: an implementation that draws more (in other
+    // portions, say) must still get through a login here - how much is drawn, and where, is C15's business
+    const FILL: usize = 512;
+    let mut full = tape.to_vec();
+    full.extend((0..FILL).map(|i| (i as u8).wrapping_mul(167) ^ 0x5c ^ tape.get(i % tape.len().max(1)).copied().unwrap_or(0)));
+    vr::install_tape(&full);
     let r = (|| {
         let acct = catch(|| SrpVerifier::from_username_and_password(ns(u), ns(p))).ok_or(LoginFail::Panic("register"))?;
         let (name, v, salt) = (acct.username().to_string(), *acct.password_verifier(), *acct.salt());
@@ -57,7 +62,7 @@ pub fn login(u: &str, p: &str, cu: &str, cp: &str, tape: &[u8]) -> Result<Login,
     vr::take_log();
     let (v, salt, b_pub, a_pub, m1, m2, server, client) = r?;
     Ok(Login { u: u.to_string(), p: p.to_string(), tape: tape.to_vec(), v, salt, b_pub, a_pub, m1, m2,
-               ks: *server.session_key(), kc: *client.session_key(), chal: *server.reconnect_challenge_data(), server, client, unused_tape: rest.len() })
+               ks: *server.session_key(), kc: *client.session_key(), chal: *server.reconnect_challenge_data(), server, client, unused_tape: rest.len().saturating_sub(FILL) })
 }
 
 /// the server's secret S for a session, recomputed through the guarded internals
